@@ -11,7 +11,7 @@ pub struct OrdForm {
 pub fn max_rank(l: L) -> u64 {
     match l {
         L::Es => 1999,
-        L::Pt => 999_999,
+        L::Pt => 999_999_999,
         _ => 1_000_000,
     }
 }
@@ -247,8 +247,15 @@ fn es_ord(n: u64, v: Var, out: &mut Vec<OrdForm>) {
 fn pt_ord(n: u64, _v: Var, out: &mut Vec<OrdForm>) {
     // from 2000 on the thousands are counted with an ordinal multiplier: "segundo milésimo" (2000.º),
     // "vigésimo quinto milésimo" (25 000.º), "centésimo milésimo" (100 000.º)
+    // the millions likewise: "milionésimo" (10^6.º), "centésimo milionésimo" (10^8.º)
+    let m = n / 1_000_000;
+    let n = n % 1_000_000;
+    let mut words: Vec<String> = if m >= 2 { positional(m, &PT_OU, &PT_OT, &PT_OH, None) } else { vec![] };
+    if m >= 1 {
+        words.push("milionésimo".into());
+    }
     let k = n / 1000;
-    let mut words: Vec<String> = if k >= 2 { positional(k, &PT_OU, &PT_OT, &PT_OH, None) } else { vec![] };
+    words.extend(if k >= 2 { positional(k, &PT_OU, &PT_OT, &PT_OH, None) } else { vec![] });
     words.extend(positional(n % 1000 + if k >= 1 { 1000 } else { 0 }, &PT_OU, &PT_OT, &PT_OH, None));
     inflect_oa(&words, out);
 }
